@@ -14,6 +14,7 @@ R5.7  the SSE runtime decoder itself: accumulator typestate and field parsing   
 R5.12 each branch of the multi-media-type decode chain accepts exactly its declared media type (equality, no widening)
 R5.13 the union decoder reads the discriminator from the type as given and keeps Annotated members whole                          [= R14.11]
 R5.14 the class name synthesized for an unnamed inline response body depends on the response (status), not on the operation alone
+R5.15 the resolver's self-import decision compares the package of the current file (else `cast("Pets", response.json())`: raw dicts)   [= R13.9]
 R5.11 the streaming body yields raw bytes exactly when the strategy's return type (the annotated item type) is bytes
 R5.9  the handler's "is the named schema a type alias?" tests exclude what ModelVisitor's classification excludes (enums are classes)
 R5.8  every declared media type of a response passes the streaming classification in the loader
@@ -216,6 +217,10 @@ def run(repo: Repo, rep: Report, tier: str) -> None:
 
     _rmg513(repo, rep, "R5.13")
     rule_one_name_per_response(repo, rep, "R5.14")
+    # R5.15: a tag module is never taken for a model module of the same name (the body would be handed back as raw dicts through `cast`)  [= R13.9]
+    from rules.c13 import rule_self_import_compares_the_package
+
+    rule_self_import_compares_the_package(repo, rep, "R5.15")
 
     # ---------------------------------------------------------------- R5.6 streaming delegation
     wsr = hmod.classes["EndpointResponseHandlerGenerator"].methods["_write_strategy_based_return"]
